@@ -904,10 +904,11 @@ class Process:
             else:
                 self._raise_if_pid_reused()
                 if not cpus:
-                    if hasattr(self._proc, "_get_eligible_cpus"):
-                        cpus = self._proc._get_eligible_cpus()
-                    else:
-                        cpus = tuple(range(len(cpu_times(percpu=True))))
+                    # Ask for all CPUs: the OS keeps the ones this process
+                    # is eligible for. (On Linux "Cpus_allowed_list" is
+                    # the *current* affinity mask, so it can't be used to
+                    # reset a mask which was previously restricted.)
+                    cpus = tuple(range(len(cpu_times(percpu=True))))
                 self._proc.cpu_affinity_set(list(set(cpus)))
 
     # Linux, FreeBSD, SunOS
